@@ -61,7 +61,7 @@ class Runtime:
         try:
             return fn(*a)
         except KeyError as e:
-            raise S.Unsupported('loop contract of %s cannot be bound to the current source: local variable %s not found' % (self.fname, e))
+            raise S.Unbound('loop contract of %s cannot be bound to the current source: local variable %s not found' % (self.fname, e))
 
     def begin(self, k, L):
         S.check('%s:loop%d:inv-init' % (self.fname, k), self._bind(self.specs[k].inv, dict(L)))
@@ -86,10 +86,10 @@ class Runtime:
         if spec.iterable_ok is not None:
             v = iterable()
             if not self._bind(spec.iterable_ok, dict(L), v):
-                raise S.Unsupported('loop %d of %s iterates over something its contract does not describe: %r' % (k, self.fname, v))
+                raise S.Unbound('loop %d of %s iterates over something its contract does not describe: %r' % (k, self.fname, v))
         elif spec.iter_src is not None:
             if _norm(spec.iter_src) != _norm(self.iter_srcs.get(k, '')):
-                raise S.Unsupported('loop %d of %s iterates over `%s`, its contract was written for `%s`' % (k, self.fname, self.iter_srcs.get(k), spec.iter_src))
+                raise S.Unbound('loop %d of %s iterates over `%s`, its contract was written for `%s`' % (k, self.fname, self.iter_srcs.get(k), spec.iter_src))
         else:
             raise S.Unsupported('loop %d of %s: a CutSpec with an element hook needs iter_src or iterable_ok' % (k, self.fname))
 
@@ -255,7 +255,7 @@ def cut(fn, specs, dump_dir=None):
     iter_srcs = {k: ast.unparse(loops[k].iter) for k in specs if k < len(loops) and isinstance(loops[k], ast.For)}
     for k in specs:
         if k >= len(loops):
-            raise S.Unsupported('function %s has no loop %d' % (fn.__qualname__, k))
+            raise S.Unbound('function %s has no loop %d' % (fn.__qualname__, k))
     # transform innermost-last so that node identities stay valid
     for k in sorted(specs, reverse=True):
         loop = loops[k]
